@@ -5,6 +5,7 @@ import (
 	"strings"
 	"sync"
 	"syscall"
+	"time"
 
 	"github.com/bitcoin-sv/block-headers-service/verifharness/refmodel"
 	"github.com/bitcoin-sv/block-headers-service/verifharness/snap"
@@ -56,6 +57,19 @@ func (x *runner) startReaders() func() {
 			x.fail("reader-5xx|"+k, fmt.Sprintf("concurrent reader got %s (%d times)", k, v))
 		}
 	}
+}
+
+// stillConnected decides whether the service still serves this connection, robustly against closes that are
+// in flight: a ping proves that everything the node sent has been dispatched, the engine flush proves that it
+// has been processed (a Disconnect decided on it has been issued), and only a connection that answers another
+// ping after that counts as connected.
+func (x *runner) stillConnected(c *Conn) bool {
+	if c.Dead() || !c.Ready() {
+		return false
+	}
+	c.Ping(5 * time.Second)
+	x.eng.Flush(20 * time.Second)
+	return c.Ping(5*time.Second) && !c.Dead()
 }
 
 func (x *runner) nodeEvents(name string, conn int) []Event {
@@ -127,7 +141,7 @@ func (x *runner) scenarioSpecificChecks(stage string) {
 				}
 				if sentForbidden {
 					delivered = true
-					if !c.Dead() {
+					if x.stillConnected(c) {
 						x.fail("forbidden-sender-still-connected|"+cls, fmt.Sprintf("node %s delivered the forbidden header on connection %d and is still connected at quiescence", n.Name, c.ID))
 					}
 				}
@@ -161,7 +175,7 @@ func (x *runner) scenarioSpecificChecks(stage string) {
 						}
 						// admitted = handshake completed and connection kept; a connection that never completes the
 						// handshake or is closed right after it was not admitted
-						if !c.Dead() && c.Ready() && s.BanDurationMs >= 60000 {
+						if s.BanDurationMs >= 60000 && x.stillConnected(c) {
 							x.fail("banned-host-connected|"+cls, fmt.Sprintf("a later connection (%d) of the banned host completed the handshake and is still open at quiescence", c.ID))
 						}
 					}
@@ -239,7 +253,7 @@ func (x *runner) scenarioSpecificChecks(stage string) {
 					break
 				}
 			}
-			if !c.Dead() {
+			if x.stillConnected(c) {
 				x.fail("checkpoint-mismatch|"+kind+"|still-connected|"+cls, fmt.Sprintf("node %s delivered (%s) a header contradicting the checkpoint at height %d and is still connected at quiescence", n.Name, kind, ns.BadAt))
 			}
 		}
